@@ -114,3 +114,24 @@ PROPS["C26"] = {
                      "bounds": "adds last yesterday; publish request timestamps tomorrow / 9999-12-31 with timeout 30 s (no panic, kept)"},
     },
 }
+
+UTF8_STUB = "String::from_utf8 is replaced by a byte-loop validator (stubs::string_from_utf8) proved equal to core::str::from_utf8 for all byte strings of length <= 4 (lemma_utf8_valid, run with this check)"
+
+PROPS["C03"] = {
+    "module": "c03_limits",
+    "level": MC,
+    "technique": "Kani/CBMC symbolic execution of the length-prefixed decoders with the declared length (full i32/u32) AND the configured limit symbolic; exact accept/reject oracle and cursor position on rejection",
+    "kernels": ["UAString::decode", "ByteString::decode", "read_array", "QualifiedName::decode", "LocalizedText::decode", "Variant::decode (array length, dimensions)", "MessageChunk::decode"],
+    "explanation": "For each decoder the four length bytes are symbolic (every i32, including negative, -1, i32::MAX) and the governing limit is symbolic in 0..=4 while the "
+                   "other two limits are unconstrained symbolic values (so consulting the wrong limit is a counterexample). Asserted: Ok iff len == -1 or 0 <= len <= limit; on rejection "
+                   "the stream cursor is exactly behind the length field (nothing of the body read). Same string limit nested in QualifiedName, LocalizedText; Variant array / dimensions; "
+                   "MessageChunk: rejected iff max > 0 and size > max, cursor at 12.",
+    "outside": "limits above 4 (strings) / 3 (arrays) / 20 (chunks); payloads restricted to ASCII for strings (UTF-8 validity is not the subject); short reads are cut (SrcLong assumes enough bytes; truncation is C02)",
+    "assumptions": ["alloc::fmt::format returns an empty String", UTF8_STUB, "streams::SrcLong: a Read whose read_exact is one copy loop; reads beyond the buffer are assumed away"],
+    "tiers": {
+        "quick": {"groups": [{"filters": ["c03_q_", "lemma_utf8_valid"], "timeout": 1200, "jobs": 12}],
+                  "bounds": "limit <= 4 (string, byte string), <= 3 (arrays), <= 20 (chunk); declared length: all 2^32 values; unwind 5-30"},
+        "thorough": {"groups": [{"filters": ["c03_q_", "c03_t_", "lemma_utf8_valid"], "timeout": 1500, "jobs": 12}],
+                     "bounds": "adds the dimensions array of a multi-dimensional Variant array"},
+    },
+}
